@@ -95,6 +95,30 @@ func stubIntrinsic(in *Interp, th *Thread, fn *ssa.Function, a []Value) (Value, 
 			return nil, stYield
 		}
 		return nil, stDone
+	case "symPreemptBudget":
+		// from here on at most n further preemptions (never more than the harness' bound allows in total)
+		t := a[0].(*Term)
+		if !t.IsConst() {
+			panic(in.unsupported("symPreemptBudget needs a concrete argument"))
+		}
+		in.preemptLim = in.preempts + int(t.val)
+		return nil, stDone
+	case "symIdle":
+		// blocks until no other thread can run: the rest of the system is quiescent
+		if !in.visible(th, th.top(), "symIdle", func() bool {
+			for _, t := range in.threads {
+				if t == th || t.done {
+					continue
+				}
+				if !t.atVisible || t.enabled == nil || t.enabled() {
+					return false
+				}
+			}
+			return true
+		}) {
+			return nil, stYield
+		}
+		return nil, stDone
 	case "symWaitUntil":
 		pred := a[0].(FuncV)
 		if !in.visible(th, th.top(), "symWaitUntil", func() (res bool) {
